@@ -26,6 +26,10 @@ def vkey(v):
 
 VALUE_TAG = {vkey(v): 10 + k for k, v in enumerate(VALUES)}
 
+# file extension of the model files of a metamodel label (label 0: the metamodel whose load is observed;
+# other labels: metamodels registered as languages for their extension) — one character, see file_of_model
+EXT = {0: "m", 1: "x", 2: "y", 3: "z"}
+
 
 class Run:
     """One load of one case.  `script[(rule, uid)]` = ["v", k] | ["s"] | ["f", attr] | ["raise", spec];
@@ -65,6 +69,9 @@ class Run:
         self.fail_refs = False  # history load that fails in reference resolution
         self.fail_proc = False  # history load that fails in the first object processor
         self.gdir = None  # directory of the grammar files (grammar spread over files)
+        # file number -> label of the metamodel the file belongs to (imported files of another language)
+        self.owner = {int(k): lab for k, lab in (case.get("mmfile") or {}).items()}
+        self.registered = False
 
     # -- canonical numbering ------------------------------------------------
     def cidx(self, name):
@@ -246,7 +253,15 @@ class Run:
         else:
             mm = metamodel_from_str(self.r.grammar, classes=classes, **opts)
         self.mms[label] = mm
+        if label != 0 and label in self.owner.values():
+            from textx import register_language
+
+            self.registered = True
+            register_language(f"procgen-lang-{label}", pattern=f"*.{EXT[label]}", metamodel=mm)
         return mm
+
+    def fname(self, k):
+        return f"f{k}.{EXT[self.owner.get(k, 0)]}"
 
     def build(self):
         self.mm = self.new_metamodel(0)
@@ -287,7 +302,7 @@ class Run:
             key = (k, obj_ref.position)
             c = calls.get(key, 0)
             calls[key] = c + 1
-            if run.use_waits and c < waits.get(key, 0):
+            if run.use_waits and run.phase == "observe" and c < waits.get(key, 0):
                 return Postponed()
             res = base(obj, attr, obj_ref)
             if res is not None and not isinstance(res, Postponed):
@@ -308,9 +323,10 @@ class Run:
         o = self.r.objs[uid]
         return {"file": o["file"], "start": o["start"], "end": o["end"]}
 
-    def obj_processor(self, rule, alien=None):
-        """recording processor of the observed registration; `alien` = tag of a registration that
-        must not be consulted by the observed load (another metamodel's, or a replaced one)."""
+    def obj_processor(self, rule, label=0, replaced=False):
+        """recording processor registered with metamodel `label`; `replaced`: of a registration that
+        is replaced before the observed load.  A call on an object of a model that belongs to another
+        metamodel, or of a replaced registration, is recorded as an `alien` event."""
         run = self
 
         def proc(obj):
@@ -320,8 +336,9 @@ class Run:
                 raise RuntimeError("history: failing processor")
             if run.phase != "observe":
                 return None
-            if alien is not None:
-                run.events.append(["alien", alien, rule, run.uid_of(obj)])
+            belongs = run.owner.get(run.file_of_model(get_model(obj)), 0)
+            if replaced or belongs != label:
+                run.events.append(["alien", "replaced" if replaced else f"mm{label}", rule, run.uid_of(obj)])
                 return None
             run.capture(get_model(obj))
             uid = run.uid_of(obj)
@@ -361,13 +378,13 @@ class Run:
 
         return proc
 
-    def processors(self, mm=None, reg=None, alien=None):
+    def processors(self, mm=None, reg=None, label=0, replaced=False):
         from textx import textxerror_wrap
 
         mm = mm or self.mm
         procs = {}
         for rule in (self.reg if reg is None else reg):
-            procs[rule] = self.obj_processor(rule, alien)
+            procs[rule] = self.obj_processor(rule, label, replaced)
         for rule in self.match_reg:
             procs[rule] = self.match_processor(rule)
         for rule in self.wrapped:
@@ -386,9 +403,9 @@ class Run:
             if self.tmp is None:
                 self.tmp = tempfile.mkdtemp(prefix="txproc_")
                 for k, t in enumerate(self.r.texts):
-                    with open(os.path.join(self.tmp, f"f{k}.m"), "w", newline="") as fh:
+                    with open(os.path.join(self.tmp, self.fname(k)), "w", newline="") as fh:
                         fh.write(t)
-            return mm.model_from_file(os.path.join(self.tmp, f"f{main}.m"))
+            return mm.model_from_file(os.path.join(self.tmp, self.fname(main)))
         if file_name_kw:
             return mm.model_from_str(self.r.texts[main], file_name=file_name_kw)
         return mm.model_from_str(self.r.texts[main])
@@ -398,6 +415,11 @@ class Run:
             if d:
                 shutil.rmtree(d, ignore_errors=True)
         self.tmp = self.gdir = None
+        if self.registered:
+            from textx import clear_language_registrations
+
+            clear_language_registrations()
+            self.registered = False
 
     def finish_events(self):
         """replace object references in events by uids (possible once the models are captured)."""
